@@ -98,6 +98,10 @@ type Outcome struct {
 	Kind     string   // "quiescent", "blocked", "crash", "horizon"
 	Blocked  []string // ids+descriptions of threads still blocked (Kind=="blocked")
 	MainDone bool     // the body thread ("0") ran to completion
+	// EnvPending: the execution ended blocked while environment events (timer, tick,
+	// cancellation, ...) were still enabled: the system is WAITING for its environment,
+	// which is not a deadlock (the explorer takes those events as deviations)
+	EnvPending bool
 	Crash    string   // panic value + stack (Kind=="crash")
 	CrashVal string
 	Steps    int
@@ -461,7 +465,7 @@ func (s *Sched) loop() Outcome {
 			}
 			main := s.threads[0].exited
 			s.abort()
-			return Outcome{Kind: "blocked", Blocked: bl, Steps: steps, Cost: s.cost, MainDone: main}
+			return Outcome{Kind: "blocked", Blocked: bl, Steps: steps, Cost: s.cost, MainDone: main, EnvPending: len(choices) > 0}
 		}
 		if steps >= s.MaxSteps && s.MaxSteps > 0 {
 			main := s.threads[0].exited
